@@ -364,11 +364,24 @@ def check_bundled(res: Result):
                     if meta:
                         by_num[meta.number] = (f, meta)
                 entries = {n.name for n in m.nested_type if n.options.map_entry}
+
+                def _key(nm):
+                    return nm.rstrip("_").replace("_", "").lower()
+
+                by_name = {_key(f.name): meta.number for f, meta in by_num.values()}
                 for fd in m.field:
+                    # a field both sides know BY NAME must carry the same number (numbers are what the wire uses)
+                    if _key(fd.name) in by_name and by_name[_key(fd.name)] != fd.number:
+                        res.counters["comparisons"] += 1
+                        res.violation("bundled", ["number-differs", TYPE_NAMES[fd.type]],
+                                      f"{fdp.package}.{flat}.{fd.name}: bundled class says #{by_name[_key(fd.name)]}, descriptor says #{fd.number}", w)
                     if fd.number not in by_num:
                         res.counters["bundled_fields_not_in_lib"] += 1
                         continue
                     f, meta = by_num[fd.number]
+                    if _key(f.name) != _key(fd.name):
+                        res.violation("bundled", ["name-differs", TYPE_NAMES[fd.type]],
+                                      f"{fdp.package}.{flat} #{fd.number}: bundled class calls it {f.name!r}, descriptor {fd.name!r}", w)
                     res.counters["bundled_fields"] += 1
                     res.counters["comparisons"] += 1
                     kind = TYPE_NAMES[fd.type]
